@@ -30,13 +30,12 @@ h_crcd(void)
 
 	__CPROVER_assert(g_crc_n == len && ctx->state == g_crc, "state = CRC-32C fold of all len bytes in order, on every path");
 	VCOVER(len == 0);
-	VCOVER(len == 7);
-	VCOVER(len == 8 && a == 3);
-	VCOVER(len == 21);
+	VCOVER(len == 3 && a == 5);
 #ifdef CPUSUPPORT_X86_SSE42
-	VCOVER(len == 8 && hwaccel == HW_X86_CRC32);
-	VCOVER(len == 7 && hwaccel == HW_X86_CRC32);
-	VCOVER(len == 23 && hwaccel == HW_SOFTWARE);
-	VCOVER(len == 24 && hwaccel == HW_UNSET);
+	VCOVER(len == 8 && hwaccel == HW_X86_CRC32 && a == 3);
+	VCOVER(len == 72 && hwaccel == HW_X86_CRC32);
+	VCOVER(len == 3 && hwaccel == HW_X86_CRC32);	/* below the threshold: portable byte loop inside an accelerated stream */
+	VCOVER(len == 2 && hwaccel == HW_SOFTWARE);
+	VCOVER(len == 1 && hwaccel == HW_UNSET);
 #endif
 }
